@@ -168,7 +168,13 @@ def cli_strategies(ctx):
             data = {"utf-16le": b"\xff\xfe", "utf-16be": b"\xfe\xff", "utf-8": b""}[enc] + text.encode(enc)
             f = os.path.join(d, "f%d" % i)
             open(f, "wb").write(data)
-            pat = rng.choice(["needle", "needle tail \\w+\\n", "\\n\\S+ tail", "a\\n\\S", "\\p{Han}+\\n"])
+            fixed = [(b"xx foo\nbar\n", "foo\\n\\b"), (b"a\nb\nc\n", "a|\\z"), (b"x\nfoo\nbar", "foo\\n\\b"), (b"foo\n\n", "foo\\n$")]
+            if i < len(fixed):
+                data, fpat = fixed[i]
+                enc = "utf-8"
+                open(f, "wb").write(data)
+            pat = fpat if i < len(fixed) else rng.choice(["needle", "needle tail \\w+\\n", "\\n\\S+ tail", "a\\n\\S", "\\p{Han}+\\n", "needle tail \\w+\\n\\b",
+                              "tail \\w+\\n$", "\\w+\\n\\b"])
             base = [vlib.RG, "--no-config", "--color", "never", "--no-heading", "-n", "-U", "-e", pat]
             outs = []
             for mode in ("--mmap", "--no-mmap"):
@@ -177,6 +183,17 @@ def cli_strategies(ctx):
             p = subprocess.run(base + ["-"], stdin=open(f, "rb"), stdout=subprocess.PIPE, stderr=subprocess.PIPE)
             outs.append((p.returncode, p.stdout))
             runs += 3
+            # the lines reported as matching are the same whatever the output mode: -c counts them
+            import re as _re
+            nmatch = len([x for x in outs[0][1].split(b"\n") if _re.match(rb"^\d+:", x)])
+            pc = subprocess.run(base + ["-I", "-c", "--include-zero", "--mmap", f], stdin=subprocess.DEVNULL, stdout=subprocess.PIPE,
+                                stderr=subprocess.PIPE)
+            runs += 1
+            # (under -U, -c counts matches, not lines: only "some line is reported" <=> "count > 0" is mode-independent)
+            if (pc.stdout.strip() not in (b"", b"0")) != (nmatch > 0):
+                ctx.violation("rg -U -c says the file has no match / a match while rg -U reports / does not report matching lines",
+                              dict(kind="cli-count", encoding=enc, pattern=pat, data_hex=data.hex(), count=repr(pc.stdout),
+                                   standard=repr(outs[0][1][-400:])))
             ctx.note_case("cli%d" % i + repr((enc, pat, len(data))), outs[0][0] == 0)
             if not (outs[0] == outs[1] == outs[2]):
                 ctx.violation("rg -U prints different results through --mmap / --no-mmap / stdin",
